@@ -250,6 +250,12 @@ def gen_point(rng, identity):
             for i in (0, 1):
                 for j in (2, 3):
                     a[i * 4 + j] = a[j * 4 + i] = Fraction(0)
+        elif k < 0.7:
+            # a tiny but perfectly regular determinant (a world drawn at
+            # scale 2**-14): non-singular is non-singular, whatever its size
+            shrink = Fraction(1, 2 ** rng.randint(8, 40))
+            for i in range(12):
+                a[i] = a[i] * shrink
         return {'a': a}
     if identity == 'mat_singular':
         a = gmat(rng, 4)
